@@ -455,16 +455,25 @@ func (w *Worker) stdout(fr *frame, s Str) {
 // fmtSymFloat renders a symbolic float: supported only when the harness has
 // registered a rendering (see parseFloat / float digits model).
 func (w *Worker) fmtSymFloat(fr *frame, o *fmtOut, x *smt.Term) {
+	// A symbolic float is rendered as an opaque token; strconv.ParseFloat maps the
+	// token back to the same value (trusted contract: ParseFloat(FormatFloat(f)) == f).
 	if s, ok := w.floatText[x.ID]; ok {
 		o.add(s)
 		return
 	}
-	panic(engineError("formatting of a symbolic float"))
+	w.ex.noteOnce("symbolic floats are formatted as opaque tokens that ParseFloat maps back to the same value (round-trip contract of strconv)")
+	tok := fmt.Sprintf("\x01F%d\x01", len(w.floatByText))
+	w.floatText[x.ID] = Str{S: tok}
+	w.floatByText[tok] = x
+	o.add(Str{S: tok})
 }
 
 // parseFloat models strconv.ParseFloat(s, 64).
 func (w *Worker) parseFloat(fr *frame, s Str) Value {
 	if s.IsConcrete() {
+		if t, ok := w.floatByText[s.S]; ok {
+			return Tuple{t, Iface{}}
+		}
 		f, err := strconv.ParseFloat(s.S, 64)
 		if err != nil {
 			return Tuple{smt.FPC(f), mkErr(fr, Str{S: err.Error()})}
